@@ -37,6 +37,9 @@ fn predicates(v: &Value) -> [bool; 18] {
 /// For each of the 18 kinds: does the typed TryFrom<&Value> succeed, and the payload re-wrapped as a Value.
 fn typed_conversions(v: &Value) -> Vec<(usize, &'static str, Option<Value>)> {
     vec![
+        (1, "Remove", Remove::try_from(v).ok().map(Value::from)),
+        (2, "Marker", Marker::try_from(v).ok().map(Value::from)),
+        (3, "Na", Na::try_from(v).ok().map(Value::from)),
         (4, "bool", bool::try_from(v).ok().map(Value::make_bool)),
         (4, "Bool", Bool::try_from(v).ok().map(Value::from)),
         (5, "f64", f64::try_from(v).ok().map(|x| match v {
@@ -191,6 +194,14 @@ fn check_value(ctx: &mut Ctx, m: &MVal, v: &Value) {
     if hk as u8 as usize != kind || <&'static str>::from(hk) != KIND_NAMES[kind] {
         ctx.violation(&format!("kind-of-value:{}", m.kind_name()), &format!("HaystackKind::from gives {hk:?} for a {}", m.kind_name()), json!({"value": truncate(&m.show(), 300)}));
     }
+    // the Bool payload predicates: is_true only for a true Bool, is_false only for a false Bool (as documented)
+    let (want_true, want_false) = match m {
+        MVal::Bool(b) => (*b, !*b),
+        _ => (false, false),
+    };
+    if v.is_true() != want_true || v.is_false() != want_false {
+        ctx.violation(&format!("bool-predicates:{}", m.kind_name()), &format!("is_true() = {}, is_false() = {} for {}", v.is_true(), v.is_false(), truncate(&m.show(), 100)), json!({"value": truncate(&m.show(), 300)}));
+    }
     if v.has_value() != (kind != 0) {
         ctx.violation("has_value", "has_value() disagrees with is_null()", json!({"value": truncate(&m.show(), 300)}));
     }
@@ -231,6 +242,41 @@ fn check_typed_json(ctx: &mut Ctx, m: &MVal, v: &Value) {
                     ctx.violation(&format!("tryfrom:{}:rejects-own-kind", name), &format!("{name} rejected the Hayson of a {}", m.kind_name()), json!({"json": truncate(&text, 300)}));
                 }
             }
+        }
+    }
+}
+
+/// Constructors and From impls keep the payload they are given (the other direction of the typed conversions).
+fn check_constructors(ctx: &mut Ctx, rng: &mut Rng) {
+    let i = rng.next_u64() as i64 >> rng.below(64);
+    let small = i as i32;
+    let f = crate::gen::gen_finite_f64(rng);
+    let b = rng.coin();
+    let s = gen_string(rng);
+    let pairs: Vec<(&str, Value, MVal)> = vec![
+        ("make_int", Value::make_int(i), MVal::Num(crate::model::F(i as f64), None)),
+        ("From<i32>", Value::from(small), MVal::Num(crate::model::F(small as f64), None)),
+        ("Number::from(i32)", Value::from(Number::from(small)), MVal::Num(crate::model::F(small as f64), None)),
+        ("From<f64>", Value::from(f), MVal::Num(crate::model::F(f), None)),
+        ("From<bool>", Value::from(b), MVal::Bool(b)),
+        ("bool::from(Bool)", Value::make_bool(bool::from(Bool::from(b))), MVal::Bool(b)),
+        ("From<Marker>", Value::from(Marker), MVal::Marker),
+        ("From<Na>", Value::from(Na), MVal::Na),
+        ("From<Remove>", Value::from(Remove), MVal::Remove),
+        ("From<&str>", Value::from(s.as_str()), MVal::Str(s.clone())),
+        ("Str::make", Value::from(Str::make(&s)), MVal::Str(s.clone())),
+        ("Uri::make", Value::from(Uri::make(&s)), MVal::Uri(s.clone())),
+        ("Symbol::make", Value::from(Symbol::make(&s)), MVal::Symbol(s.clone())),
+        ("Ref::make", Value::from(Ref::make(&s, Some("d"))), MVal::Ref(s.clone(), Some("d".into()))),
+        ("make_coord", Value::make_coord(Coord::make(1.5, -2.5)), MVal::Coord(crate::model::F(1.5), crate::model::F(-2.5))),
+        ("make_xstr", Value::make_xstr(XStr::make("Bin", &s)), MVal::XStr("Bin".into(), s.clone())),
+        ("make_true", Value::make_true(), MVal::Bool(true)),
+        ("make_false", Value::make_false(), MVal::Bool(false)),
+    ];
+    ctx.stratum("constructors");
+    for (name, got, want) in pairs {
+        if observe(&got) != want {
+            ctx.violation(&format!("constructor:{name}"), &format!("{name} built {}, expected {}", truncate(&observe(&got).show(), 200), truncate(&want.show(), 200)), json!({}));
         }
     }
 }
@@ -390,6 +436,7 @@ pub fn run(ctx: &mut Ctx) {
         }
         check_value(ctx, &m, &v);
         check_typed_json(ctx, &m, &v);
+        check_constructors(ctx, &mut rng);
         check_dict_getters(ctx, &mut rng, &m, &v);
     }
     let n = ctx.n(1_500, 40_000);
